@@ -574,7 +574,7 @@ package engine
 //@   assigns c.dots, elems(c.dots)
 //@   ensures m != nil
 //@   ensures c.dots.arr == old(c.dots.arr) || fresh(c.dots.arr)
-//@   ensures [C01] nil-pointer-pattern-matches-only-nil: risnil(v) ==> m == global("github.com/uber-go/gopatch/internal/engine.nilMatcher")
+//@   ensures [C01,C06] nil-pointer-pattern-matches-only-nil: risnil(v) ==> m == global("github.com/uber-go/gopatch/internal/engine.nilMatcher")
 //@   ensures [C01] pointer-to-the-compiled-target: !risnil(v) ==> m == boxed(mk("github.com/uber-go/gopatch/internal/engine.PtrMatcher", cM(c.fset, c.meta, relem(v), c.patchStart, c.patchEnd)))
 
 //@ func (c *matcherCompiler) compileInterface(v) (m)
